@@ -8,6 +8,7 @@ import (
 	"os"
 	"runtime"
 	"strconv"
+	"syscall"
 	"time"
 
 	"verif/explore"
@@ -26,6 +27,7 @@ func main() {
 		fmt.Println("usage: vcheck check <id> <quick|thorough> | list | replay <file> | worker-dfs ...")
 		os.Exit(2)
 	}
+	syscall.CloseOnExec(9) // run.sh's build lock: held by this process only, never by its workers
 	switch os.Args[1] {
 	case "list":
 		for _, id := range explore.IDs() {
